@@ -163,8 +163,9 @@ func (p *Pass) getRelativePath(filePath string) string {
 	return filepath.Base(filePath)
 }
 
-func (p *Pass) function(to *compile.FunctionSpec, fn string, path string, service string) {
-	file := p.getRelativePath(path)
+func (p *Pass) function(to *compile.FunctionSpec, fn string, file string, service string) {
+	// file is already relative to the git root; making it relative a second
+	// time fails for files in subdirectories and loses the directory.
 	if to == nil {
 		p.Report(Diagnostic{
 			FilePath: file,
